@@ -70,6 +70,7 @@ theorem startSrc_size (cfg : Cfg) (src : Src) (ctx : Option Nat) (g : G) :
   | unit => simp [startSrc]
   | sharedReady r => simp [startSrc]
   | sharedContract p f => simp [startSrc, mWait, mSrc]
+  | sharedKept p f pre => cases h : g.isSet p pre <;> simp [startSrc, h, mWait, mSrc]
 
 theorem asyncFinish_size (ty : Nat) (own : Exec) (k : List Step) (lazy : Bool) (ctx : Option Nat) (o : Out)
     (B extra : Nat) (h : SizeOut B (mSteps k + extra) o) : SizeOut B extra (asyncFinish ty own k lazy ctx o) := by
@@ -235,10 +236,11 @@ theorem delivery_decreases (cfg : Cfg) (st : State) (t : Thread) (hc : st.crashe
   have hpos : 1 ≤ mT t := by have := mWait_pos t.wait; simp only [mT]; omega
   have hm : st.measure = mT t := by simp [State.measure, hc, ht]
   rw [hm]
-  have key : ∀ ctx, (settle st (resume cfg t ctx st.g)).measure < mT t := by
-    intro ctx
-    have hs := resume_size cfg t ctx st.g
-    cases hr : resume cfg t ctx st.g with
+  have key : ∀ (ctx : Option Nat) (st' : State) (g' : G), st'.crashed = false →
+      (settle st' (resume cfg t ctx g')).measure < mT t := by
+    intro ctx st' g' hc
+    have hs := resume_size cfg t ctx g'
+    cases hr : resume cfg t ctx g' with
     | done r inh c g =>
       simp only [settle]
       split <;> simp [State.measure, hc] <;> omega
@@ -251,11 +253,12 @@ theorem delivery_decreases (cfg : Cfg) (st : State) (t : Thread) (hc : st.crashe
   unfold Thread.delivery
   cases hw : t.wait with
   | promise q f =>
-    have : mech cfg st (.set q) = settle st (resume cfg t none st.g) := by simp [mech, hc, ht, hw]
-    rw [this]; exact key none
+    have : mech cfg st (.set q) = settle { st with g := st.g.markSet q } (resume cfg t none (st.g.markSet q)) := by
+      simp [mech, hc, ht, hw]
+    rw [this]; exact key none _ _ hc
   | job jid k jk =>
     have : mech cfg st (.call k) = settle st (resume cfg t (some k) st.g) := by simp [mech, hc, ht, hw]
-    rw [this]; exact key (some k)
+    rw [this]; exact key (some k) _ _ hc
 
 /-- keep delivering: the state after n deliveries -/
 def deliverN (cfg : Cfg) : Nat → State → State
